@@ -63,7 +63,7 @@ def offsets(ctx):
     ts.update((0, 1, 86400, L.t[0] - 100000, I31 - 2, I31 - 1, I31, I31 + 1, I31 + 2, 2 ** 32, 2 ** 32 + 1))
     last = L.t[-1]
     ts.update(range(last, TMAX, 86400 * 36525 // 20))
-    for _ in range(3000 if not ctx.thorough else 200000):
+    for _ in range(60000 if not ctx.thorough else 1000000):
         ts.add(rnd.randrange(0, TMAX))
     ts = sorted(t for t in ts if 0 <= t <= TMAX)
     near = set()
@@ -112,7 +112,7 @@ def diffs(ctx, shard, nshards):
     V = Viol(sub, "C14")
     L = leaps(ctx)
     rnd = random.Random(ctx.sub_seed("c14d", shard))
-    for it in range(25 if not ctx.thorough else 600):
+    for it in range(500 if not ctx.thorough else 6000):
         a = _near_instants(L, rnd, 1)[0]
         bs = _near_instants(L, rnd, 40) + [a, a + 1, a - 1]
         bs = [b for b in bs if 0 <= b <= TMAX]
@@ -132,7 +132,9 @@ def diffs(ctx, shard, nshards):
                 sub.nt((a, b))
             if o != "%d" % x:
                 tag = "ddiff:%rS:" + ("neg" if b < a else "pos")
-                if max(a, b) >= I31:
+                if abs(b - a) >= I31:
+                    tag += "@wide"
+                elif max(a, b) >= I31:
                     tag += "@post2038"
                 V.add(tag, {"a": fmt(a), "b": l, "exp": "%d" % x, "kind": "diff"}, expected="%d" % x, actual=o,
                       weight=abs(b - a))
@@ -146,7 +148,7 @@ def adds(ctx, shard, nshards):
     L = leaps(ctx)
     rnd = random.Random(ctx.sub_seed("c14a", shard))
     rows = L.rows[1:]
-    for it in range(30 if not ctx.thorough else 800):
+    for it in range(500 if not ctx.thorough else 6000):
         n = rnd.choice(list(range(1, 81)) + [3600, 86400, 86401, 31536000, 10 ** 8]) * rnd.choice((1, -1))
         starts = []
         for _ in range(40):
